@@ -43,7 +43,7 @@ def in_window(pos):
 
 
 def keys(seed, chain='x'):
-    names = ['root', 'outsider'] + ['d%d' % i for i in range(1, 8)]
+    names = ['root', 'outsider'] + ['d%d' % i for i in range(1, 12)]
     sk = {n: env.sym(seed, 'c14.%s.%s' % (chain, n)) for n in names}
     return sk, {n: refed.public_key(v) for n, v in sk.items()}
 
@@ -204,7 +204,7 @@ def chain_case(ctx, case):
           f'chain length {n} deviations {devs}', now)
 
 
-def chain_cases(maxlen):
+def chain_cases(maxlen, pairs_upto=3):
     out = []
     per_link = [('pos', p) for p in WINDOW if p != 'begin+1'] + [('can', False)] + [('signer', 'root'), ('signer', 'outsider')]
     for n in range(1, maxlen + 1):
@@ -214,7 +214,7 @@ def chain_cases(maxlen):
                     (0, 'slack', -1), (0, 'slack', 0), (0, 'slack', 1)]
         for d in singles + globals_:
             out.append((n, (d,)))
-        if n <= 3:
+        if n <= pairs_upto:
             for a, b in itertools.combinations(singles + globals_[:2], 2):
                 if a[0] == b[0] and a[1] == b[1]:
                     continue
@@ -310,9 +310,9 @@ def cert_case(ctx, begin):
 
 def blocks(tier, seed):
     q = tier == 'quick'
-    maxlen = 4 if q else 6
+    maxlen = 4 if q else 8
     singles = [(p, c, s) for p in WINDOW for c in (True, False) for s in SIGNERS]
-    cc = chain_cases(maxlen)
+    cc = chain_cases(maxlen, 3 if q else 4)
     return [
         Block('single_lock_product', singles, single_case,
               'window position x may-delegate x certificate signer x clock slack {58..61} x final signer x 5 flag/allowed pairs; all '
@@ -333,7 +333,7 @@ def meta(tier, seed):
         rule='products of per-link settings executed through the real builders and run_auth_scripts with a pinned virtual clock; two '
              'oracles (delegation model from the statement, ref.refvm on the same bytes)',
         states_meaning='distinct (lock kind, per-link settings, clock, signer, flags) cases; transitions = scripts run',
-        bounds={'chain_length': 4 if q else 6, 'slack_threshold': THR},
+        bounds={'chain_length': 4 if q else 8, 'slack_threshold': THR},
         assumptions=['run_auth_scripts cannot change ts_threshold: the default slack 60 is used',
                      'Ed25519 unforgeability for the rejection direction'],
     )
